@@ -204,6 +204,15 @@ def make_store(backend, scratch, tag):
     return SqliteWorkflowStore(path, poll_interval=POLL, single_connection=(backend == "sqlite1"))
 
 
+def second_store(backend, scratch, tag, first):
+    """Another store object on the SAME database (a second server process, or the server after a restart); the memory
+    store has no such thing."""
+    if backend == "memory":
+        return first
+    return SqliteWorkflowStore(os.path.join(scratch, "ev_%s.db" % tag), poll_interval=POLL,
+                               single_connection=(backend == "sqlite1"))
+
+
 WATCHDOG_S = 20
 
 
@@ -238,6 +247,7 @@ def execute(backend, ops, scratch, tag="x"):
         base_poll = AbstractWorkflowStore.poll_interval
         AbstractWorkflowStore.poll_interval = POLL
         subs = {r: [] for r in RUNS}
+        box = {}
         api = _Api(store)
         resolve = load_resolve()
 
@@ -272,7 +282,12 @@ def execute(backend, ops, scratch, tag="x"):
                 run = None if op[0] == "tick" else op[0]
                 kind = "tick" if run is None else op[1]
                 if kind == "append":
-                    await store.append_event(run, envelope(*op[2]))
+                    tgt = store
+                    if len(op) > 3 and op[3]:        # through a second store object on the same database
+                        if box.get("second") is None:
+                            box["second"] = second_store(backend, scratch, tag, store)
+                        tgt = box["second"]
+                    await tgt.append_event(run, envelope(*op[2]))
                 elif kind == "sub":
                     _, _, k, mode = op
                     if mode == "base":
@@ -351,9 +366,13 @@ def execute(backend, ops, scratch, tag="x"):
                         await s.gen.aclose()
                     except BaseException:  # noqa: BLE001
                         pass
-            conn = getattr(store, "_persistent_conn", None)
-            if conn is not None:
-                conn.close()
+            for st_ in (store, box.get("second")):
+                conn = getattr(st_, "_persistent_conn", None) if st_ is not None else None
+                if conn is not None:
+                    try:
+                        conn.close()
+                    except Exception:  # noqa: BLE001
+                        pass
 
     # watchdog: real code that spins without reaching a suspension point (e.g. a subscriber that is
     # handed the same event for ever) must become a reported failure, not a hanging check
@@ -727,3 +746,57 @@ def cursor_cases():
 
     vloop.run(main(), auto=False)
     return exprs, descr, fails
+
+
+
+# ---- several store objects on one database (two server processes, or a server before and after a restart) --------
+def two_objects_case(rng, scratch, tag):
+    """2-3 SqliteWorkflowStore objects on the SAME database file append to the same runs in a random interleaving
+    (per-call and single-connection modes); afterwards a fresh object reads the logs back and subscribes from random
+    cursors.  C16 on the real outputs: sequences are 0,1,2,... in append order with no gap and no duplicate, a reader
+    from cursor k gets exactly the events after k.  Returns (failures, facts)."""
+    path = os.path.join(scratch, "ev2_%s.db" % tag)
+    for suffix in ("", "-wal", "-shm", "-journal"):
+        if os.path.exists(path + suffix):
+            os.remove(path + suffix)
+    nobj = rng.choice([2, 2, 3])
+    single = rng.random() < 0.4
+    plan = [(rng.randrange(nobj), rng.choice(RUNS)) for _ in range(rng.randint(4, 14))]
+    out = []
+
+    async def main():
+        objs = [SqliteWorkflowStore(path, poll_interval=POLL, single_connection=single) for _ in range(nobj)]
+        appended = {r: [] for r in RUNS}
+        pid = 0
+        try:
+            for o, r in plan:
+                pid += 1
+                await objs[o].append_event(r, envelope("plain", pid))
+                appended[r].append(pid)
+            reader = SqliteWorkflowStore(path, poll_interval=POLL, single_connection=False)
+            for r in RUNS:
+                evs = await reader.query_events(r)
+                seqs = [e.sequence for e in evs]
+                pids = [env_pid(e.event) for e in evs]
+                if seqs != list(range(len(appended[r]))) or pids != appended[r]:
+                    out.append("run %s: %d events appended through %d store objects on one database (order of objects %s): "
+                               "stored sequences %s carrying appends %s, expected 0..%d carrying %s"
+                               % (r, len(appended[r]), nobj, [o for o, rr in plan if rr == r], seqs, pids, len(appended[r]) - 1, appended[r]))
+                    continue
+                if appended[r]:
+                    k = rng.randrange(-1, len(appended[r]))
+                    got = await reader.query_events(r, after_sequence=k)
+                    if [e.sequence for e in got] != list(range(k + 1, len(appended[r]))):
+                        out.append("run %s: reading after cursor %d gives sequences %s" % (r, k, [e.sequence for e in got]))
+        finally:
+            for st_ in objs:
+                conn = getattr(st_, "_persistent_conn", None)
+                if conn is not None:
+                    try:
+                        conn.close()
+                    except Exception:  # noqa: BLE001
+                        pass
+
+    vloop.run(main(), auto=False)
+    return out, dict(objects=nobj, appends=len(plan), single_connection=single,
+                     alternations=sum(1 for a, b in zip(plan, plan[1:]) if a[0] != b[0] and a[1] == b[1]))
